@@ -4,7 +4,7 @@ P=$1; shift; EXTRA="$@"
 export MUT_DIR=${MUT_DIR:-/tmp/mut-lead}
 cd /verif
 TAG=s; [ -d /tmp/seed/$P/seed_r1 ] && TAG=r2s; [ -d /tmp/seed/$P/seed_r2 ] && TAG=r3s; [ -d /tmp/seed/$P/seed_r3 ] && TAG=r4s; [ -d /tmp/seed/$P/seed_r4 ] && TAG=r5s; TAG=${SEEDTAG:-$TAG}
-for n in 1 2 3; do
+for n in 1 2 3 4 5; do
   [ -d /tmp/seed/$P/seed/$n ] || continue
   if [ ! -d seeded/$P-$TAG$n ]; then tools/import_seed.sh $P $n | tail -1; fi
   [ -d seeded/$P-$TAG$n ] || { echo "$P-$TAG$n not confirmed"; continue; }
